@@ -44,4 +44,38 @@ theorem select_spec_aux (xc : Rat) : ∀ (rs : List (Λ × Rat × Nat)) (xs : Ra
       · simp only [List.take_succ_cons, rateSum, List.map_cons, List.sum_cons] at a ⊢; grind
       · simp only [List.take_succ_cons, rateSum, List.map_cons, List.sum_cons, List.getElem_cons_succ] at b ⊢; grind
 
+theorem rateSum_nonneg (rs : List (Λ × Rat × Nat)) (h : ∀ r ∈ rs, 0 ≤ r.2.1) : 0 ≤ rateSum rs := by
+  induction rs with
+  | nil => simp [rateSum]
+  | cons r rs ih =>
+    have h0 : 0 ≤ r.2.1 := h r (by simp)
+    have h1 : 0 ≤ rateSum rs := ih (fun x hx => h x (by simp [hx]))
+    simp only [rateSum, List.map_cons, List.sum_cons] at h1 ⊢; grind
+
+/-- converse of `select_spec_aux` -/
+theorem select_complete_aux (xc : Rat) : ∀ (rs : List (Λ × Rat × Nat)) (xs : Rat) (last : Λ × Rat × Nat) (k : Nat)
+    (hk : k < rs.length), (∀ r ∈ rs, 0 ≤ r.2.1) →
+    xs + rateSum (rs.take k) ≤ xc → xc < xs + rateSum (rs.take k) + rs[k].2.1 →
+    select xc xs rs last = rs[k] := by
+  intro rs
+  induction rs with
+  | nil => intro xs last k hk; simp at hk
+  | cons r rs ih =>
+    intro xs last k hk hn a b
+    simp only [select]
+    cases k with
+    | zero =>
+      simp only [rateSum, List.take_zero, List.map_nil, List.sum_nil, List.getElem_cons_zero] at a b
+      have h : xc < Arith.add xs r.2.1 := by show xc < xs + r.2.1; grind
+      simp [h]
+    | succ k =>
+      have hk' : k < rs.length := by simp at hk; omega
+      have hn' : ∀ x ∈ rs, 0 ≤ x.2.1 := fun x hx => hn x (by simp [hx])
+      have h0 : 0 ≤ rateSum (rs.take k) := rateSum_nonneg _ (fun x hx => hn' x (List.mem_of_mem_take hx))
+      simp only [List.take_succ_cons, rateSum, List.map_cons, List.sum_cons, List.getElem_cons_succ] at a b h0
+      have h : ¬ xc < Arith.add xs r.2.1 := by show ¬ xc < xs + r.2.1; grind
+      simp only [h, if_false]
+      show select xc (xs + r.2.1) rs r = _
+      exact ih (xs + r.2.1) r k hk' hn' (by simp only [rateSum]; grind) (by simp only [rateSum]; grind)
+
 end Dyn
